@@ -92,7 +92,7 @@ def run_history(env, f, key, case):
     forced = list(case.get('forced', []))
     pts = []
     trace = []
-    n_ops = 4
+    n_ops = 5
 
     def ch(n, label):
         if forced:
@@ -127,6 +127,12 @@ def run_history(env, f, key, case):
             x, _, _ = f.fixed_point()
             pts.append(x)
             trace.append('fixed_point()')
+        elif op == 4:
+            if key in ('linop', 'quad'):
+                from vf.engine import Abort
+                raise Abort()
+            (2 * f).stationary_point()         # the optimum is declared on a rescaled copy: f receives (x*, 0, f*)
+            trace.append('(2*f).stationary_point()')
     if key == 'linop':
         u = Point()
         f.T.oracle(u)
@@ -243,11 +249,11 @@ def cases(tier):
     cs = []
     length = 3 if tier == 'quick' else 4
     for key in ALL_KEYS:
-        for first in range(4):
+        for first in range(5):
             if first == 1:
                 continue           # 'oracle at an existing point' cannot come first
             if tier == 'thorough':
-                for second in range(5):
+                for second in range(6):
                     cs.append(dict(id="%s-op%d%d" % (key, first, second), cls=key, length=length, forced=[first, second],
                                    input_zero_tests='generic'))
             else:
